@@ -58,6 +58,10 @@ Points == n + 1                                     \* points produced so far: n
 
 (* --- invariants ----------------------------------------------------------- *)
 TableWellFormed == (walk > 0 /\ n = 0) => \A c \in DOMAIN Walks[walk] : RowWellFormed(Rows[Walks[walk][c]])
+(* every row of the exported table (all 1000 dimensions, also in the quick tier where only some are walked): initial
+   direction numbers odd and below 2^i, polynomial code in range, dimensions numbered consecutively *)
+WholeTableWellFormed == (blk = 0 /\ walk = 0) =>
+   \A r \in DOMAIN Tab.allrows : RowWellFormed(Tab.allrows[r]) /\ Tab.allrows[r].d = r
 HistoryIsSequence == walk > 0 => \A c \in DOMAIN H : Len(H[c]) = Points /\ H[c][Points] = X[c]
 UnitCube == walk > 0 => \A c \in DOMAIN X : InUnit(X[c])
 ClosedForm == walk > 0 => X = SeekX(VOf(walk), n)
